@@ -6,7 +6,10 @@
 package conc
 
 import (
+	"bytes"
+
 	"fmt"
+	"github.com/ozanh/ugo/encoder"
 	"sort"
 	"strings"
 	"sync"
@@ -30,6 +33,10 @@ type Case struct {
 	// ModelOK: the script uses nothing but what the Lean VM model supports (no imports,
 	// no host objects); its solo run is also compared with the model.
 	ModelOK bool
+	// Decoded: the Bytecode the VMs share went through encode/decode (its file set has no cached
+	// last file, function objects are fresh): lazily restored caches are then first filled while
+	// the VMs run.
+	Decoded bool
 }
 
 // ModuleMap builds a new module map for the case (compile time only).
@@ -73,7 +80,19 @@ func VMod() map[string]ugo.Object {
 
 // Compile compiles the case with the real compiler.
 func (c *Case) Compile(noOpt bool) (*ugo.Bytecode, error) {
-	return ugo.Compile([]byte(c.Src), ugo.CompilerOptions{ModuleMap: c.ModuleMap(), NoOptimize: noOpt})
+	bc, err := ugo.Compile([]byte(c.Src), ugo.CompilerOptions{ModuleMap: c.ModuleMap(), NoOptimize: noOpt})
+	if err != nil || !c.Decoded {
+		return bc, err
+	}
+	var buf bytes.Buffer
+	if err := encoder.EncodeBytecodeTo(bc, &buf); err != nil {
+		return bc, nil // not encodable: share the compiled one
+	}
+	dec, err := encoder.DecodeBytecodeFrom(&buf, c.ModuleMap())
+	if err != nil {
+		return bc, nil
+	}
+	return dec, nil
 }
 
 // CompileAny compiles with the optimizer and, when constant folding rejects the script
@@ -416,7 +435,7 @@ return {fail: fail, div: func(a, b) { return a / b }}`,
 	default:
 		sb.WriteString(fmt.Sprintf("f := func() { return wrap(%d) }\ntry { f() } catch e { throw e }\n", depth))
 	}
-	return &Case{Family: "errors-traces", Src: sb.String(), Mods: mods, Recover: r.Bool()}
+	return &Case{Family: "errors-traces", Src: sb.String(), Mods: mods, Recover: r.Bool(), Decoded: r.Bool()}
 }
 
 func callbacks(r *gen.Rand) *Case {
